@@ -379,10 +379,16 @@ func runCheck(opt checkOpts) int {
 	for s := range agg.findings {
 		sigs = append(sigs, s)
 	}
-	sort.Strings(sigs)
-	minBudget := 45 * time.Second
+	// most frequent first: the budgeted minimisation goes to what matters most
+	sort.Slice(sigs, func(i, j int) bool {
+		if len(agg.findings[sigs[i]]) != len(agg.findings[sigs[j]]) {
+			return len(agg.findings[sigs[i]]) > len(agg.findings[sigs[j]])
+		}
+		return sigs[i] < sigs[j]
+	})
+	minBudget := 30 * time.Second
 	if opt.Tier == "thorough" {
-		minBudget = 5 * time.Minute
+		minBudget = 4 * time.Minute
 	}
 	for i, sig := range sigs {
 		fs := agg.findings[sig]
@@ -398,7 +404,7 @@ func runCheck(opt checkOpts) int {
 		violations++
 		plan := f.Plan
 		rep.MinFrom = len(plan)
-		if i < 6 && len(plan) > 0 { // minimise the first few distinct signatures
+		if i < 12 && len(plan) > 0 { // minimise the most frequent distinct signatures
 			plan = minimise(b, opt.ID, sig, plan, minBudget)
 		}
 		rep.MinTo = len(plan)
